@@ -230,6 +230,7 @@ def step (d : Drv) (line : String) : Drv × List String :=
         | .ok s' => respond { d with s := s', prev := [] } line "accept" [] true
         | .error m => respond d line ("reject:" ++ m.replace " " "_") [] true
       | "dump" => respond d line "accept" [] true
+      | "inspect" => respond d line "accept" [] false   -- the model's listings are total (Props/C09Listings runQuery_never_internal)
       | _ => respond d line "bad-op" [] false
 
 partial def loop (h : IO.FS.Stream) (out : IO.FS.Stream) (d : Drv) : IO Unit := do
